@@ -102,6 +102,65 @@ end
 def marksOk (start oldEnd : Nat) (before edited : Tree) : Marks :=
   marksTree start oldEnd before edited 0 0 false {}
 
+/-! ## `Balanced`: repeat chains are logarithmically deep
+
+A *repeat chain* is a maximal set of hidden nodes with the same symbol nested directly in each
+other (`X_repeat1 → X_repeat1 X_repeat1 | item …`).  The parser builds them left-recursively
+(height = number of elements) and `ts_parser__balance_subtree` rotates them before the tree is
+returned.  The thresholds of this check (work per edit ∝ depth) rely on it, so it is judged on the
+dumps: `height ≤ 2·⌈log₂(elements)⌉ + 4` for every chain. -/
+
+def log2ceil (n : Nat) : Nat := if n ≤ 1 then 0 else Nat.log2 (n - 1) + 1
+
+structure Bal where
+  chains : Nat := 0
+  maxElems : Nat := 0
+  maxHeight : Nat := 0
+  worstSlack : Int := 1000        -- min over chains of bound − height
+  fail : Option String := none
+  deriving Repr
+
+mutual
+  /-- (height, elements) of the chain rooted at `t` w.r.t. symbol `sym`; also visits all other
+  chains below and records them in `b`. -/
+  def chainOf (sym : Nat) (t : Tree) (b : Bal) : Nat × Nat × Bal :=
+    match t with
+    | .mk d ks =>
+      if d.symbol == sym && !d.visible && !ks.isEmpty then
+        let (h, e, b) := chainKids sym ks b
+        (h + 1, e, b)
+      else
+        (0, 1, balTree (.mk d ks) b)
+  def chainKids (sym : Nat) (ks : List Tree) (b : Bal) : Nat × Nat × Bal :=
+    match ks with
+    | [] => (0, 0, b)
+    | k :: rest =>
+      let (h1, e1, b) := chainOf sym k b
+      let (h2, e2, b) := chainKids sym rest b
+      (max h1 h2, e1 + e2, b)
+  /-- Visit a node that is not inside a chain of its own symbol. -/
+  def balTree (t : Tree) (b : Bal) : Bal :=
+    match t with
+    | .mk d ks =>
+      if !d.visible && !ks.isEmpty && ks.any (fun k => k.data.symbol == d.symbol && !k.kids.isEmpty) then
+        let (h, e, b) := chainKids d.symbol ks b
+        let h := h + 1
+        let bound := 2 * log2ceil e + 4
+        let b := { b with chains := b.chains + 1, maxElems := max b.maxElems e, maxHeight := max b.maxHeight h
+                          worstSlack := min b.worstSlack ((bound : Int) - (h : Int)) }
+        if h ≤ bound then b
+        else match b.fail with
+          | some _ => b
+          | none => { b with fail := some s!"repeat chain of symbol {d.symbol} with {e} elements has height {h} > 2*ceil(log2 {e})+4 = {bound}" }
+      else balKids ks b
+  def balKids (ks : List Tree) (b : Bal) : Bal :=
+    match ks with
+    | [] => b
+    | k :: rest => balKids rest (balTree k b)
+end
+
+def balanced (root : Tree) : Bal := balTree root {}
+
 structure Thresholds where
   lexed : Nat
   bytes : Nat
